@@ -71,12 +71,18 @@ Proof.
   assert (c = 0 \/ c = 1 \/ c = 2 \/ c = 3 \/ c = 4)%N as [->|[->|[->|[->| ->]]]] by lia; reflexivity.
 Qed.
 
+Definition ltimes_ok (ms : list irec) : Prop :=
+  forall m, In m ms -> - ZM31 * ZM31 <= ts_ms (i_ns m) < ZM31 * ZM31.
+
 Lemma legacy_v2_is_enc codec ms :
-  ms <> [] -> Forall wf_in ms -> small ms -> (codec <= 4)%N -> v2_fits comp (lbatch codec ms) ->
+  ms <> [] -> Forall wf_in ms -> ltimes_ok ms -> small ms -> (codec <= 4)%N -> v2_fits comp (lbatch codec ms) ->
   legacy_v2 comp codec ms = Some (enc_set comp [IBatch (lbatch codec ms)]).
 Proof.
-  intros Hne Hwf Hn Hc [Hfit Hfit2]. destruct ms as [|m0 ms']; [contradiction|].
+  intros Hne Hwf Hts Hn Hc [Hfit Hfit2]. destruct ms as [|m0 ms']; [contradiction|].
   set (ms := m0 :: ms') in *.
+  assert (Htd : forall x, In x ms -> in_i64 (ts_ms (i_ns x) - ts_ms (i_ns m0))).
+  { intros x Hx. pose proof (Hts x Hx). pose proof (Hts m0 (or_introl eq_refl)).
+    unfold in_i64, ZM63, ZM31 in *. lia. }
   pose proof (rec_body_small_of_fits _ Hfit) as Hsm.
   unfold lbatch in Hsm, Hfit. cbn [b_recs] in Hsm, Hfit.
   change (match ms with [] => 0 | m1 :: _ => i_ns m1 end) with (i_ns m0) in *.
@@ -84,12 +90,12 @@ Proof.
                  concat (map enc_rec (mapi_from (lrec (i_ns m0)) 0 ms))).
   { apply mapi_concat_ext; [|exact Hsm]. intros j x Hj Hx Hs.
     rewrite Forall_forall in Hwf.
-    apply write_record_enc; [apply Hwf, Hx|unfold small in Hn; lia|exact Hs]. }
+    apply write_record_enc; [apply Hwf, Hx|unfold small in Hn; lia|apply Htd, Hx|exact Hs]. }
   assert (Hsum : zsum (mapi_from (fun i m => record_size (i_ns m0) i m + var_int_len (record_size (i_ns m0) i m)) 0 ms) =
                  zlen (concat (map enc_rec (mapi_from (lrec (i_ns m0)) 0 ms)))).
   { apply mapi_zsum_ext; [|exact Hsm]. intros j x Hj Hx Hs.
     rewrite Forall_forall in Hwf.
-    destruct (write_record_enc (i_ns m0) j x (Hwf x Hx) ltac:(unfold small in Hn; lia) Hs) as [_ E].
+    destruct (write_record_enc (i_ns m0) j x (Hwf x Hx) ltac:(unfold small in Hn; lia) (Htd x Hx) Hs) as [_ E].
     cbn zeta. rewrite E. unfold enc_rec. rewrite zlen_app. unfold var_int_len.
     rewrite varint_len_sv by (apply small_i64, Hs). lia. }
   rewrite zlen_enc_batch in Hfit2.
@@ -123,9 +129,6 @@ Proof.
     repeat (f_equal; try lia).
 Qed.
 
-Definition ltimes_ok (ms : list irec) : Prop :=
-  forall m, In m ms -> - ZM31 * ZM31 <= ts_ms (i_ns m) < ZM31 * ZM31.
-
 Lemma lbatch_wf codec ms :
   ms <> [] -> Forall wf_in ms -> ltimes_ok ms -> small ms -> (codec <= 4)%N ->
   v2_fits comp (lbatch codec ms) -> wf_batch comp (lbatch codec ms).
@@ -153,7 +156,7 @@ Proof.
                                     small (r_hdrs r) /\ Forall wf_hdr (r_hdrs r))
                           (mapi_from (lrec (i_ns m0)) 0 ms)).
     { apply mapi_Forall. intros j x Hj Hx. rewrite Forall_forall in Hwf. destruct (Hwf x Hx) as (A & B & C & D).
-      pose proof (milliseconds_range (sat64 (i_ns x - i_ns m0))). unfold lrec. cbn [r_tsd r_offd r_key r_val r_hdrs].
+      pose proof (Ht x Hx). unfold lrec. cbn [r_tsd r_offd r_key r_val r_hdrs].
       repeat split; try assumption; unfold in_i64, ZM63, ZM31 in *; lia. }
     clear - Hall Hsm. induction Hall as [|x l Hx Hl IH]; [constructor|].
     apply Forall_cons_iff in Hsm as [S1 S2]. constructor; [|apply IH, S2].
@@ -194,48 +197,23 @@ Proof.
   apply map_mapi_pbatch; reflexivity.
 Qed.
 
-(* whole-millisecond times no further than 2^31-1 ms from the first record *)
-Definition whole_ms (ms : list irec) : Prop :=
-  match ms with
-  | [] => True
-  | m0 :: _ => forall m, In m ms ->
-      exists k, i_ns m = 1000000 * k /\ in_i64 (i_ns m) /\ in_i64 (i_ns m0) /\
-                -2147483648 <= k - ts_ms (i_ns m0) <= 2147483647
-  end.
-
-Lemma ts_ms_whole k : ts_ms (1000000 * k) = k.
-Proof. unfold ts_ms. rewrite Z.mul_comm. apply Z.quot_mul. lia. Qed.
-
-Lemma map_mapi_lbatch (B : batch2) base ms : b_base B = 0 -> b_first B = ts_ms base ->
-  (forall m, In m ms -> ts_ms base + milliseconds (sat64 (i_ns m - base)) = ts_ms (i_ns m)) -> forall i,
+Lemma map_mapi_lbatch (B : batch2) base ms : b_base B = 0 -> b_first B = ts_ms base -> forall i,
   map (rec_of_rec2 B) (mapi_from (lrec base) i ms) = mapi_from (fun i r => canon (ts_ms (i_ns r)) i r) i ms.
 Proof.
-  intros H0 H1. induction ms as [|r rs IH]; intros H i; cbn [mapi_from map]; [reflexivity|].
-  rewrite IH by (intros m Hm; apply H; right; exact Hm). f_equal.
+  intros H0 H1. induction ms as [|r rs IH]; intros i; cbn [mapi_from map]; [reflexivity|].
+  rewrite IH. f_equal.
   unfold rec_of_rec2, lrec, canon, mk_rec. cbn [r_tsd r_offd r_key r_val r_hdrs].
-  rewrite H0, H1. rewrite (H r (or_introl eq_refl)). f_equal; lia.
+  rewrite H0, H1. f_equal; lia.
 Qed.
 
-Lemma raw_records_lbatch_whole codec ms : whole_ms ms ->
+Lemma raw_records_lbatch codec ms :
   raw_records [IBatch (lbatch codec ms)] = mapi_from (fun i r => canon (ts_ms (i_ns r)) i r) 0 ms.
 Proof.
-  intros Hw. unfold raw_records. cbn [flat_map raw_records_of]. rewrite app_nil_r.
+  unfold raw_records. cbn [flat_map raw_records_of]. rewrite app_nil_r.
   destruct ms as [|m0 ms']; [reflexivity|].
   set (ms := m0 :: ms') in *. unfold lbatch.
   change (match ms with [] => 0 | m1 :: _ => i_ns m1 end) with (i_ns m0). cbn [b_recs].
-  apply map_mapi_lbatch; [reflexivity|reflexivity|].
-  intros m Hm. destruct (Hw m Hm) as (k & Ek & Hi & Hi0 & Hk).
-  destruct (Hw m0 (or_introl eq_refl)) as (k0 & Ek0 & _).
-  rewrite Ek0 in *. rewrite Ek in *. rewrite ts_ms_whole in *.
-  replace (1000000 * k - 1000000 * k0) with (1000000 * (k - k0)) by lia.
-  assert (Hs : sat64 (1000000 * (k - k0)) = 1000000 * (k - k0)).
-  { unfold sat64, in_i64, ZM63 in *.
-    destruct (_ <? _) eqn:E1; [lia|]. destruct (_ <=? _) eqn:E2; [lia|reflexivity]. }
-  rewrite Hs. unfold milliseconds, max_timeout, min_timeout.
-  rewrite ?ts_ms_whole.
-  destruct (Z.ltb_spec (2147483647 * 1000000) (1000000 * (k - k0))); [lia|].
-  destruct (Z.ltb_spec (1000000 * (k - k0)) (-2147483648 * 1000000)); [lia|].
-  replace (1000000 * (k - k0)) with ((k - k0) * 1000000) by lia. rewrite Z.quot_mul by lia. lia.
+  apply map_mapi_lbatch; reflexivity.
 Qed.
 
 (* ------------------------------------------------------------------ statements used by Properties/C05.v *)
@@ -256,75 +234,22 @@ Proof.
   exists bytes. split; [exact A|]. split; [exact B|]. apply raw_records_pbatch.
 Qed.
 
-Lemma legacy_v2_whole_full : forall comp decomp : N -> list N -> list N,
+Lemma legacy_v2_full : forall comp decomp : N -> list N -> list N,
   (forall c b, decomp c (comp c b) = b) ->
   forall codec ms,
   ms <> [] -> Forall wf_in ms -> ltimes_ok ms -> small ms -> (codec <= 4)%N ->
-  v2_fits comp (lbatch codec ms) -> whole_ms ms ->
+  v2_fits comp (lbatch codec ms) ->
   exists bytes, legacy_v2 comp codec ms = Some bytes /\
                 dec_set decomp bytes = Some [IBatch (lbatch codec ms)] /\
                 raw_records [IBatch (lbatch codec ms)] = expected_records (fun r => ts_ms (i_ns r)) ms.
 Proof.
-  intros comp decomp Hdc codec ms H1 H2 H3 H4 H5 H6 H7.
+  intros comp decomp Hdc codec ms H1 H2 H3 H4 H5 H6.
   destruct (legacy_v2_decodable comp decomp Hdc codec ms H1 H2 H3 H4 H5 H6) as (bytes & A & B).
-  exists bytes. split; [exact A|]. split; [exact B|]. apply raw_records_lbatch_whole, H7.
+  exists bytes. split; [exact A|]. split; [exact B|]. apply raw_records_lbatch.
 Qed.
 
-Lemma legacy_v2_general : forall comp decomp : N -> list N -> list N,
-  (forall c b, decomp c (comp c b) = b) ->
-  forall codec ms,
-  ms <> [] -> Forall wf_in ms -> ltimes_ok ms -> small ms -> (codec <= 4)%N ->
-  v2_fits comp (lbatch codec ms) ->
-  exists bytes, legacy_v2 comp codec ms = Some bytes /\
-                dec_set decomp bytes = Some [IBatch (lbatch codec ms)].
-Proof. intros comp decomp Hdc codec ms. apply legacy_v2_decodable. exact Hdc. Qed.
-
-(* the full statement for the legacy v2 writer, and its refutation (F4) *)
-Definition legacy_v2_full_statement : Prop :=
-  forall comp decomp : N -> list N -> list N,
-  (forall c b, decomp c (comp c b) = b) ->
-  forall codec ms,
-  ms <> [] -> Forall wf_in ms -> ltimes_ok ms -> small ms -> (codec <= 4)%N ->
-  v2_fits comp (lbatch codec ms) ->
-  exists bytes its, legacy_v2 comp codec ms = Some bytes /\
-                    dec_set decomp bytes = Some its /\
-                    raw_records its = expected_records (fun r => ts_ms (i_ns r)) ms.
-
 Definition idc (c : N) (b : list N) : list N := b.
-(* 0.9 ms and 1.1 ms after 1 600 000 000 000 ms *)
+(* the former F4 witness: 0.9 ms and 1.1 ms after 1 600 000 000 000 ms *)
 Definition f4_witness : list irec :=
   [ {| i_off := 0; i_ns := 1600000000000900000; i_key := None; i_val := Some [97%N]; i_hdrs := [] |};
     {| i_off := 0; i_ns := 1600000000001100000; i_key := None; i_val := Some [98%N]; i_hdrs := [] |} ].
-
-Lemma f4_hyps : f4_witness <> [] /\ Forall wf_in f4_witness /\ ltimes_ok f4_witness /\ small f4_witness /\
-                v2_fits idc (lbatch 0 f4_witness).
-Proof.
-  split; [discriminate|]. split.
-  { repeat constructor; vm_compute; reflexivity. }
-  split.
-  { intros m [<-|[<-|[]]]; vm_compute; split; congruence. }
-  split; [vm_compute; reflexivity|].
-  split; vm_compute; reflexivity.
-Qed.
-
-Lemma legacy_ts_refuted :
-  exists ms bytes its,
-    (ms <> [] /\ Forall wf_in ms /\ ltimes_ok ms /\ small ms /\ v2_fits idc (lbatch 0 ms)) /\
-    legacy_v2 idc 0 ms = Some bytes /\ dec_set idc bytes = Some its /\
-    map o_ts (raw_records its) = [1600000000000; 1600000000000] /\
-    map (fun r => ts_ms (i_ns r)) ms = [1600000000000; 1600000000001].
-Proof.
-  exists f4_witness. eexists. eexists. split; [exact f4_hyps|].
-  split; [vm_compute; reflexivity|]. split; [vm_compute; reflexivity|].
-  split; vm_compute; reflexivity.
-Qed.
-
-Lemma legacy_v2_full_statement_false : ~ legacy_v2_full_statement.
-Proof.
-  intros H.
-  destruct f4_hyps as (A & B & C & D & E).
-  destruct (H idc idc (fun c b => eq_refl) 0%N f4_witness A B C D ltac:(vm_compute; discriminate) E)
-    as (bytes & its & H1 & H2 & H3).
-  vm_compute in H1. injection H1 as <-. vm_compute in H2. injection H2 as <-.
-  vm_compute in H3. discriminate H3.
-Qed.
